@@ -75,6 +75,8 @@ def eworld (nb : Nat) (regs : List Reg) (ch : String) (clock step : Int) : World
     | .list vs => pure vs
     | _ => throw "TypeError"
   unstar _ := throw "TypeError"
+  format _ := throw "TypeError"
+  concat _ := throw "TypeError"
   other s := if s == "{}" then pure (.userData false) else throw "Unsupported"
   throw cls := throw cls
   rethrow := throw "reraise"
